@@ -187,6 +187,20 @@ func Acquire(p unsafe.Pointer, what string) {
 	}
 }
 
+// Report records an ownership problem found by a shim (the first one of an execution is kept).
+//
+//go:norace
+func Report(msg string) {
+	if active && problem == "" {
+		problem = msg
+	}
+}
+
+// Itoa is exported for the shims' messages.
+//
+//go:norace
+func Itoa(i int) string { return itoa(i) }
+
 //go:norace
 func Release(p unsafe.Pointer) {
 	if !active || cur == nil || p == nil {
